@@ -10,16 +10,16 @@ P = {
     "C01": ("shadow-q native", "exact-rational shadow execution (cgmath monomorphised at a monitoring scalar) vs array model; native small-integer f32/f64 bit equality",
             "Runs the real generic matrix code at an exact rational scalar on thousands of random matrices/vectors per dimension and compares every element with an independent column-major array model (layout readers, A*v, A*B, embeddings, constructors as transforms, element-wise ops, ring laws, all operand forms). Exact equality: no tolerance, so a refactoring that keeps the property cannot fire and any index/sign/term slip changes a low-degree polynomial and is seen on the first non-trivial case.",
             "Held on the executions explored (small rationals, f32/f64 small integers); i128 arithmetic; not a for-all proof."),
-    "C02": ("shadow-q miri", "exact-rational shadow execution on generic, exactly singular and tiny-determinant matrices; mutation histories vs array model; Miri (thorough) for the unsafe helpers",
+    "C02": ("shadow-q native miri", "exact-rational shadow execution on generic, exactly singular and tiny-determinant matrices; mutation histories vs array model; Miri (thorough) for the unsafe helpers",
             "invert() None iff Leibniz determinant = 0 decided exactly on three matrix families, two-sided inverse, determinant laws, transpose laws, swap/replace histories with all index pairs, inverse_transform = invert. Thorough tier adds the Miri workload over swap_*/determinant/invert.",
             "Exact rationals in i128; UB only judged by Miri on the workload's executions (Tree Borrows gate)."),
     "C03": ("shadow-q native", "exact-rational shadow execution vs component model; native integer vectors with i128 overflow-free model",
             "All vector operators, 20 ElementWise methods, folds, dot/cross/perp-dot identities for dimensions 1-4 at an exact scalar, and the same component model on i8/u8/i32/u32/i64 where the model proves no overflow (overflow-checks on).",
             "Integer identities only on overflow-free operands; held on explored cases."),
-    "C04": ("shadow-q", "exact-rational shadow execution vs Hamilton multiplication table model; exact rational unit quaternions",
+    "C04": ("shadow-q native", "exact-rational shadow execution vs Hamilton multiplication table model; exact rational unit quaternions",
             "Associativity, distributivity, conjugation, norm multiplicativity, inverse, the q*v formula for arbitrary q and the sandwich product / length preservation / action law for exactly unit rational quaternions, all by exact equality.",
             "Exact rationals; held on explored cases."),
-    "C05": ("shadow-q", "exact-rational shadow execution; coverage-directed generation of all four matrix-to-quaternion branches",
+    "C05": ("shadow-q native", "exact-rational shadow execution; coverage-directed generation of all four matrix-to-quaternion branches",
             "For exact rational unit quaternions the four representations are compared with the harness' own sandwich-product rotation matrix; composition, orthonormality, det=+1, and the +-q round trip with every one of the four internal cases required to be observed (classes decided from the specification).",
             "Rational unit quaternions make all four square roots rational; held on explored cases."),
     "C06": ("shadow-iv shadow-q native", "rigorous interval shadow execution (enclosure intersection with Rodrigues model) + native f64 containment self-test",
@@ -28,7 +28,7 @@ P = {
     "C07": ("shadow-iv native", "interval shadow execution vs model Rx*Ry*Rz; extraction monitored on exact rational quaternions incl. gimbal cone and threshold ladder",
             "from(Euler) for four types vs the model product; Euler::from(q) range membership, exact rebuild below |sin y|=0.998, x=0 / y=+-pi/2 / 0.13 bound inside the cone, with inputs on both sides of the threshold down to 1e-9 relative distance.",
             "As C06; zone decided by the model's own sin y, undecidable cases demand nothing."),
-    "C08": ("shadow-q", "exact-rational shadow execution of all five Transform implementations vs function-composition model",
+    "C08": ("shadow-q native", "exact-rational shadow execution of all five Transform implementations vs function-composition model",
             "concat/*/concat_self = composition, one(), transform_vector ignores disp, inverse None/Some by scale or determinant incl. the 1e-6 ladder, inverse_transform_vector, Decomposed->matrix commutes with apply/concat/invert; affine and projective matrices.",
             "Exact rationals; band 0<|scale|<=1e-6 left open as in the statement."),
     "C09": ("shadow-q shadow-iv native", "exact shadow execution on exact look-at configurations + interval shadow execution on arbitrary ones; every look_* entry point incl. deprecated spellings",
@@ -74,7 +74,7 @@ ENGINES = [
      "serves_properties": [k for k, v in P.items() if "shadow-q" in v[0]]},
     {"name": "shadow-iv", "path": "harness/src/iv.rs", "kind_free_text": "outward-rounded interval shadow scalar; enclosure-intersection oracle; ambiguous comparisons discard the case; native f64 containment self-test",
      "serves_properties": [k for k, v in P.items() if "shadow-iv" in v[0]]},
-    {"name": "native", "path": "harness/src/props", "kind_free_text": "value-exact monitors on the real primitive scalar types (component models, panic events, serde call-stream recorder)",
+    {"name": "native", "path": "harness/src/props", "kind_free_text": "monitors on the real primitive scalar types: value-exact component models, bitwise spelling equality, panic events, serde data-model recorder, and accuracy monitors (f32-vs-f64 twin runs of the same generic code, known-exact-answer inputs) with tolerances >= 100x the observed rounding error",
      "serves_properties": [k for k, v in P.items() if "native" in v[0]]},
     {"name": "miri", "path": "miri/src/main.rs", "kind_free_text": "cargo +nightly miri run (-Zmiri-tree-borrows gate, Stacked Borrows advisory) over every unsafe view / swap / get_unchecked",
      "serves_properties": [k for k, v in P.items() if "miri" in v[0]]},
